@@ -225,10 +225,10 @@ class Sym:
             for _ in range(o):
                 r = r * self
             return r
-        raise Unsupported("symbolic power")
+        return _opaque_pow(self, o)
 
     def __rpow__(self, o):
-        raise Unsupported("symbolic exponent")
+        return _opaque_pow(o, self)
 
     # comparisons ------------------------------------------------------------------------------
     def _cmp(self, o, f):
@@ -339,6 +339,25 @@ class SBool(Sym):
 
     def __index__(self):
         raise Unsupported("symbolic bool used as index")
+
+
+POW_UNINTERPRETED = [False]
+
+
+def _opaque_pow(base, expo):
+    """ x ** y with a symbolic operand: an unconstrained real r, except r > 0 when the base is positive """
+    if not POW_UNINTERPRETED[0]:
+        raise Unsupported("symbolic power (enable POW_UNINTERPRETED to abstract it)")
+    c = ctx()
+    r = c.real(c.fresh_name('pow'))
+    if c.concrete is None:
+        c.assume(Implies(_wrap(_num(base) > 0), r > 0))
+    return r
+
+
+def opaque_real(stem='opaque'):
+    c = ctx()
+    return c.real(c.fresh_name(stem))
 
 
 numbers.Integral.register(SInt)
